@@ -896,14 +896,19 @@ Definition eng_chain (inp impl : node) : verdict :=
   end.
 
 (* ---------------- engine: args (pkg/args.Args and pkg/meta.Meta as containers; serves C10, C20) ---------------- *)
-Definition run_aop (ci : bool) (st : list node * cont * list cont) (op : node) : list node * cont * list cont :=
+(* [ist]: what the implementation answered to this operation. A metadata value holding an integer beyond +-(2^53-1) may be
+   stored or refused (C10 asks "stored exactly or rejected" of argument values and bounds only arguments and policies): when
+   the implementation refuses one, the model follows it *)
+Definition run_aop (ci : bool) (st : list node * cont * list cont) (opi : node * node) : list node * cont * list cont :=
   let '(sts, a, cls) := st in
+  let '(op, ist) := opi in
   match op with
   | List [Str kind; Str k; v] =>
+      let add := if negb ci && negb (ints_in53 v) && negb (nbool ist) then Err 9 else c_add ci a k v in
       if str_eqb kind (lit "add") then
-        match c_add ci a k v with Ok a' => (sts ++ [Bool true], a', cls) | _ => (sts ++ [Bool false], a, cls) end
+        match add with Ok a' => (sts ++ [Bool true], a', cls) | _ => (sts ++ [Bool false], a, cls) end
       else (* cloneadd: the clone takes the value or refuses it; the original is untouched, and the clone keeps what it got *)
-        match c_add ci a k v with Ok a' => (sts ++ [Bool true], a, cls ++ [a']) | _ => (sts ++ [Bool false], a, cls ++ [a]) end
+        match add with Ok a' => (sts ++ [Bool true], a, cls ++ [a']) | _ => (sts ++ [Bool false], a, cls ++ [a]) end
   | List [Str kind; List kvs] =>
       let other := fold_left (fun o e => match e with
                                         | List [Str k; v] => match c_add ci o k v with Ok o' => o' | _ => o end
@@ -927,7 +932,8 @@ Definition eng_args (inp impl : node) : verdict :=
   match inp with
   | List [Str kind; List ops] =>
       let ci := str_eqb kind (lit "args") in
-      let '(sts, a, cls) := fold_left (run_aop ci) ops ([], [], []) in
+      let ists := match impl with List (List l :: _) => l | _ => [] end in
+      let '(sts, a, cls) := fold_left (run_aop ci) (combine ops (ists ++ repeat (Bool true) (length ops))) ([], [], []) in
       let ents (c : cont) := List (map (fun kv => List [Str (fst kv); snd kv]) c) in
       let m := List [List sts; ents a;
                      (if ci then c_to_ipld a else Null); Bool (c_equals a a); List (map ents cls)] in
